@@ -46,6 +46,18 @@ TABLE={ # id: (property, demo file, package dir, -run pattern, needs)
  "C16-c":("C16","zz_seed_demo_test.go","transports/http/endpoints/api/headers","TestSeedDemo","ancestors route with a stored {hash} and an unknown {ancestorHash}"),
  "C12-c":("C12","zz_seed_demo_test.go","notification","TestSeedDemo","two deactivated webhooks in consecutive rows, then another event"),
  "C02-c":("C02","zz_seed_demo_test.go","database","TestSeedDemo","one verify request containing the same merkle root twice with different heights"),
+ "C03-c":("C03","zz_seed_demo_test.go","database","TestSeedDemo","a reorganisation in the real SQL store (the only UPDATE on headers runs)"),
+ "C04-c":("C04","zz_seed_demo_test.go","service","TestSeedDemo","a stale branch of at least two headers; ancestor lookup at exactly the lowest stale height starting from the stale branch"),
+ "C06-c":("C06","zz_seed_demo_test.go","transports/p2p/p2psync","TestSeedDemo","a headers batch that starts with already known headers and continues with new ones (store on a deep fork whose fork point is not a locator height)"),
+ "C07-c":("C07","zz_seed_demo_test.go","transports/p2p/p2psync","TestSeedDemo","a forbidden header delivered by a peer that is not the sync peer"),
+ "C08-c":("C08","zz_seed_demo_test.go","database","TestSeedDemo","lastEvaluatedKey = merkle root of an ORPHAN header"),
+ "C09-c":("C09","zz_seed_demo_test.go","transports/http/endpoints/api/access","TestSeedDemo","auth on and a malformed Authorization header: wrong scheme with a valid token, extra parts, or the scheme alone"),
+ "C10-c":("C10","zz_seed_demo_test.go","service","TestSeedDemo","two token creations within the same wall-clock second"),
+ "C11-c":("C11","zz_seed_demo_test.go","notification","TestSeedDemo","two channels, the earlier-registered one blocking inside Notify"),
+ "C13-c":("C13","zz_seed_demo_test.go","service","TestSeedDemo","a tip height >= 12 that is not of the form 9+2^k"),
+ "C14-c":("C14","zz_seed_demo_test.go","internal/wire","TestSeedDemo","a headers frame whose count varint is the 9-byte form with the top bit set"),
+ "C17-c":("C17","zz_seed_demo_test.go","database","TestSeedDemo","an exported longest-chain header with a timestamp >= 2^31"),
+ "C19-c":("C19","zz_seed_demo_test.go","domains","TestSeedDemo","difficulty bits with exponent < 3 and a non-zero mantissa that truncates to target 0"),
 }
 ENV=dict(os.environ,GOFLAGS="-mod=mod",GOPROXY="off")
 def run(cmd,cwd,timeout=1500):
